@@ -134,6 +134,11 @@ func (a *act) val(v ssa.Value, st *State) Val {
 	case *ssa.Function:
 		return Val{T: a.fx.fnConst(x), S: SFn, GT: x.Type(), Fn: x}
 	case *ssa.Global:
+		if x.Name() == "Undef" && strings.HasSuffix(x.Pkg.Pkg.Path(), "ipfs/go-cid") {
+			// cid.Undef is the zero Cid; it is never assigned
+			c := a.fx.ctx.Declare("globaddr!cid.Undef", SRef)
+			return Val{T: c, S: SRef, GT: x.Type(), Loc: &Loc{Heap: "Const!cid.Undef", GT: derefType(x.Type())}}
+		}
 		name := "G!" + shortPkg(x.Pkg.Pkg.Path()) + "." + x.Name()
 		elem := x.Type().(*types.Pointer).Elem()
 		return Val{T: a.fx.ctx.Declare("globaddr!"+name, SRef), S: SRef, GT: x.Type(), Loc: &Loc{Heap: name, GT: elem}}
@@ -165,6 +170,9 @@ func (a *act) heapSort(loc *Loc) Sort {
 
 func (a *act) load(loc *Loc, st *State) string {
 	fx := a.fx
+	if loc.Heap == "Const!cid.Undef" {
+		return "cid!undef"
+	}
 	h := fx.sv(st, loc.Heap, a.heapSort(loc))
 	var t string
 	switch {
